@@ -259,7 +259,10 @@ class AsyncFIXConnection:
                 " order to get valid response handling"
             )
 
+        num_out = self._session.next_num_out
         encoded_msg = self._codec.encode(msg, self._session).encode("utf-8")
+        # retransmissions (PossDupFlag) and SequenceReset keep their own MsgSeqNum
+        is_new_num = self._session.next_num_out != num_out
 
         msg_raw = encoded_msg.replace(b"\x01", b"|")
         self.log.debug(
@@ -270,9 +273,11 @@ class AsyncFIXConnection:
         self._socket_writer.write(encoded_msg)
         await self._socket_writer.drain()
 
-        self._journaler.persist_msg(
-            encoded_msg, self._session, MessageDirection.OUTBOUND
-        )
+        if is_new_num:
+            # the journal keeps what was sent first under each number
+            self._journaler.persist_msg(
+                encoded_msg, self._session, MessageDirection.OUTBOUND
+            )
 
     async def send_test_req(self):
         """Sends TestRequest(35=1) and sets TestReqID for expected response from peer.
@@ -614,7 +619,6 @@ class AsyncFIXConnection:
         # Remember next_num_out
         current_next_num_out = self._session.next_num_out
 
-        self._journaler.set_seq_num(self._session, next_num_out=begin_seq_no)
         gap_fill_begin = int(begin_seq_no)
         gap_fill_end = int(begin_seq_no)
 
@@ -673,8 +677,6 @@ class AsyncFIXConnection:
             gap_fill_msg[FTag.MsgSeqNum] = gap_fill_begin
             gap_fill_msg[FTag.NewSeqNo] = current_next_num_out
             await self.send_msg(gap_fill_msg)
-
-        self._journaler.set_seq_num(self._session, next_num_out=current_next_num_out)
 
         if self._connection_state != ConnectionState.RESENDREQ_AWAITING:
             await self._state_set(ConnectionState.ACTIVE)
